@@ -365,9 +365,18 @@ def run_harness(ctx, lines, env_extra=None, timeout=600, exe=None):
     if env_extra:
         env.update(env_extra)
     crashes = 0
+    crashed_lines = []      # indices of aborted commands not yet classified
     while i < len(lines):
+        if crashes >= MAX_CRASHES and crashed_lines:
+            # aborts the model predicts (commands that leave their buffer by design: verdict OOB) do not count towards the cap
+            try:
+                verdicts = run_oracle(ctx, [lines[j] for j in crashed_lines])
+                crashes -= sum(1 for v in verdicts if v.startswith('OOB'))
+            except Exception:
+                pass
+            crashed_lines = []
         if crashes >= MAX_CRASHES:
-            out += ['SKIPPED (more than %d aborts in this stream)' % MAX_CRASHES] * (len(lines) - i)
+            out += ['SKIPPED (more than %d unexpected aborts in this stream)' % MAX_CRASHES] * (len(lines) - i)
             break
         chunk = lines[i:i + 150]        # blocks: after a crash only the rest of the block is fed again
         try:
@@ -389,6 +398,7 @@ def run_harness(ctx, lines, env_extra=None, timeout=600, exe=None):
             kind = re.sub(r'\s+', '_', kind.replace('ERROR: ', ''))
             locs = LOC_RE.findall(err)
             out.append('CRASH %s %s' % (kind, locs[0] if locs else '?'))
+            crashed_lines.append(i)
             i += 1
             crashes += 1
     return out
